@@ -1,9 +1,151 @@
-(* C18 — a barectf 2 configuration behaves exactly like its barectf 3 equivalent. (under construction) *)
+(* C18 — a barectf 2 configuration behaves exactly like its barectf 3 equivalent.
+   Final statements only.
+     Front/V2Conv.v   model of config_parse_v2.py (_conv_* / _transform_config_node), of
+                      config_parse_common._v3_prefixes_from_v2_prefix and of the version detection of
+                      config_parse.py, on YAML trees; tied to /repo on every run (harness/props/c18.py:
+                      every real conversion and thousands of real _conv_ft_node calls are compared with it).
+     Front/V2Sem.v    v2_sem / v3_sem: an independent, direct reading of a barectf 2 document and of a
+                      barectf 3 document into ONE abstract configuration record; valid_v2.
+     Front/V2Proofs.v proofs.
+   Res: Ok | CfgErr (configuration error) | Crash (any other Python exception).  No fuel in the
+   converter model; the readings are fuelled on field type nesting only (None when it runs out;
+   valid_v2 / v2_ft = Some _ exclude that case). *)
 From Coq Require Import List String ZArith Bool.
 Import ListNotations.
-From BT.Front Require Import Yaml YamlRes V2Conv V2Proofs.
+From BT.Front Require Import Yaml YamlRes V2Conv V2Sem V2Proofs.
 Open Scope string_scope.
+Open Scope list_scope.
 
-Theorem C18_version_detect_tagged : forall l, major_version true (YMap l) = Ok 3%Z.
-Proof. exact version_detect_tagged. Qed.
-Print Assumptions C18_version_detect_tagged.
+(* ------------------------------------------------------------------ field types, all nesting depths
+   For every barectf 2 field type node the barectf 2 reading understands (any nesting of arrays and
+   structures; all class spellings; signed / align / base / byte-order / encoding / property-mappings;
+   enumeration members implicit, explicit and ranges; static and dynamic arrays; min-align), provided no
+   floating point type carries `byte-order` and no structure has `fields: null` (ft_conv_ok, see the
+   refutations below), the converter succeeds and its output, read as barectf 3 says, is the same
+   abstract field type — minus the clock mapping, which barectf 3 does not carry in a field type
+   (erase_clk; the mapping is remembered for the default clock, see C18_default_clock_inference). *)
+Theorem C18_field_type_conv : forall fuel y f,
+  v2_ft fuel y = Some f -> ft_conv_ok fuel y = true ->
+  exists y', conv_ft y = Ok y' /\ v3_ft fuel y' = Some (erase_clk f).
+Proof. exact ft_equiv. Qed.
+Print Assumptions C18_field_type_conv.
+
+(* ------------------------------------------------------------------ enumeration auto-increment
+   For ALL well-shaped `members` lists (bare labels, {label, value: int}, {label, value: [lo, hi]}):
+   the converter's `mappings`, read as barectf 3 says, are the ranges of the barectf 2 rule —
+   Ranges: a bare label takes (upper bound of the member written just before it) + 1, 0 if it is the
+   first — grouped by label in order of first appearance (repeated labels accumulate ranges). *)
+Theorem C18_enum_members_autoinc : forall ms mems,
+  omapM member_of ms = Some mems ->
+  exists mp, enum_loop ms 0%Z [] = Ok mp
+             /\ v3_mappings mp = Some (group (ranges_of mems))
+             /\ Ranges None mems (ranges_of mems).
+Proof. exact enum_members_autoinc_thm. Qed.
+Print Assumptions C18_enum_members_autoinc.
+
+(* ------------------------------------------------------------------ prefix split
+   For ALL strings p: the identifier prefix is p; the file name prefix is p without its trailing
+   underscores (p = file prefix ++ n underscores, and the file prefix does not end with one); it is the
+   independent definition of V2Sem (reverse, drop leading underscores, reverse). *)
+Theorem C18_prefix_split : forall p,
+  fst (v3_prefixes p) = p
+  /\ (exists n, p = (snd (v3_prefixes p) ++ underscores n)%string)
+  /\ ends_with_us (snd (v3_prefixes p)) = false
+  /\ snd (v3_prefixes p) = file_prefix_of p.
+Proof. exact prefix_split_thm. Qed.
+Print Assumptions C18_prefix_split.
+
+(* ------------------------------------------------------------------ default clock inference (ALL inputs) *)
+Theorem C18_default_clock_inference : forall d y',
+  conv_dst (YMap d) = Ok y' ->
+  exists n p pf ehf tsb tse ehc,
+    y' = YMap n
+    /\ lookup "packet-context-type" d = Some (YMap p) /\ lookup "fields" p = Some (YMap pf)
+    /\ opt_fields (getn "event-header-type" d) = Ok ehf
+    /\ clk_name (lookup "timestamp_begin" pf) = Ok tsb
+    /\ clk_name (lookup "timestamp_end" pf) = Ok tse
+    /\ match ehf with Some ef => clk_name (lookup "timestamp" ef) | None => Ok None end = Ok ehc
+    /\ (forall a b, tsb = Some a -> tse = Some b -> a = b)
+    /\ lookup "$default-clock-type-name" n = first_some ehc (first_some tsb tse).
+Proof. exact default_clock_inference_thm. Qed.
+Print Assumptions C18_default_clock_inference.
+
+(* clk_name of a mapped integer is the `name` of its FIRST property mapping *)
+Theorem C18_clock_name_of_mapped_integer : forall il c f rest nm,
+  lookup "class" il = Some (YStr c) -> one_of c ["int"; "integer"] = true ->
+  lookup "property-mappings" il = Some (YSeq (YMap f :: rest)) -> lookup "name" f = Some nm ->
+  clk_name (Some (YMap il)) = Ok (Some nm).
+Proof. exact clk_name_mapped. Qed.
+Print Assumptions C18_clock_name_of_mapped_integer.
+
+Theorem C18_clock_mismatch_is_error : forall d p pf ehf a b,
+  lookup "packet-context-type" d = Some (YMap p) -> lookup "fields" p = Some (YMap pf) ->
+  opt_fields (getn "event-header-type" d) = Ok ehf ->
+  clk_name (lookup "timestamp_begin" pf) = Ok (Some a) ->
+  clk_name (lookup "timestamp_end" pf) = Ok (Some b) -> a <> b ->
+  exists w, conv_dst (YMap d) = CfgErr w.
+Proof. exact clock_mismatch_is_error. Qed.
+Print Assumptions C18_clock_mismatch_is_error.
+
+(* ------------------------------------------------------------------ feature inference (ALL inputs) *)
+Theorem C18_feature_inference : forall d y',
+  conv_dst (YMap d) = Ok y' ->
+  exists n p pf ehf pkt er,
+    y' = YMap n
+    /\ lookup "packet-context-type" d = Some (YMap p) /\ lookup "fields" p = Some (YMap pf)
+    /\ opt_fields (getn "event-header-type" d) = Ok ehf
+    /\ lookup "$features" n = Some (YMap [("packet", YMap pkt); ("event-record", YMap er)])
+    /\ keys pkt = ["total-size-field-type"; "content-size-field-type"; "beginning-timestamp-field-type";
+                   "end-timestamp-field-type"; "discarded-event-records-counter-snapshot-field-type"]
+    /\ keys er = ["type-id-field-type"; "timestamp-field-type"]
+    /\ feature_spec (lookup "packet_size" pf) (lookup "total-size-field-type" pkt)
+    /\ feature_spec (lookup "content_size" pf) (lookup "content-size-field-type" pkt)
+    /\ feature_spec (lookup "timestamp_begin" pf) (lookup "beginning-timestamp-field-type" pkt)
+    /\ feature_spec (lookup "timestamp_end" pf) (lookup "end-timestamp-field-type" pkt)
+    /\ feature_spec (lookup "events_discarded" pf) (lookup "discarded-event-records-counter-snapshot-field-type" pkt)
+    /\ (let ef := match ehf with Some ef => ef | None => [] end in
+        feature_spec (lookup "id" ef) (lookup "type-id-field-type" er)
+        /\ feature_spec (lookup "timestamp" ef) (lookup "timestamp-field-type" er))
+    /\ exists ex,
+         Forall2 (fun kv item => exists c, conv_ft (snd kv) = Ok c /\ item = member_item (fst kv) c)
+                 (filter (fun kv => negb (in_list (fst kv) ctf_member_names)) pf) ex
+         /\ lookup "packet-context-field-type-extra-members" n = match ex with [] => None | _ => Some (YSeq ex) end.
+Proof. exact feature_inference_thm. Qed.
+Print Assumptions C18_feature_inference.
+
+(* ------------------------------------------------------------------ version detection
+   A root mapping carrying the barectf 3 tag is 3, an untagged root mapping (whatever its `version`
+   property) is 2 — for configuration_file_major_version and for the parser dispatch; anything that is
+   not a mapping is not Ok (tag on a non-mapping: configuration error; untagged non-mapping: assertion
+   failure in _config_file_major_version = known finding S5 of C10). *)
+Theorem C18_version_detect :
+  (forall l, major_version true (YMap l) = Ok 3%Z)
+  /\ (forall l, major_version false (YMap l) = Ok 2%Z)
+  /\ (forall l, parser_dispatch true (YMap l) = Ok 3%Z)
+  /\ (forall l, parser_dispatch false (YMap l) = Ok 2%Z)
+  /\ (forall b y, (forall l, y <> YMap l) -> is_ok (major_version b y) = false /\ is_ok (parser_dispatch b y) = false).
+Proof. exact version_detect_thm. Qed.
+Print Assumptions C18_version_detect.
+
+(* ------------------------------------------------------------------ the hypotheses of valid_v2 are needed
+   `disagrees w`: the barectf 2 reading of w is defined, and the converter's output (if any) does not
+   read as the same abstract configuration.  Each witness is replayed on the real code on every run
+   (harness/props/c18_probes.py); the real code shows every one of these deviations. *)
+Theorem C18_equiv_without_H1_refuted : disagrees w_real_byte_order.        (* float with `byte-order` *)
+Proof. exact H1_real_byte_order_refuted. Qed.
+Print Assumptions C18_equiv_without_H1_refuted.
+Theorem C18_equiv_without_H2_refuted : disagrees w_fields_null /\ conv_config w_fields_null = Crash.   (* `fields: null` *)
+Proof. exact H2_fields_null_refuted. Qed.
+Print Assumptions C18_equiv_without_H2_refuted.
+Theorem C18_equiv_without_H3_refuted : disagrees w_seq_num.                 (* packet_seq_num dropped *)
+Proof. exact H3_seq_num_refuted. Qed.
+Print Assumptions C18_equiv_without_H3_refuted.
+Theorem C18_equiv_without_H4_refuted : disagrees w_mixed_clocks.            (* two clocks in one stream *)
+Proof. exact H4_mixed_clocks_refuted. Qed.
+Print Assumptions C18_equiv_without_H4_refuted.
+Theorem C18_equiv_without_H5_refuted : disagrees w_header_members.          (* other header members dropped *)
+Proof. exact H5_header_members_refuted. Qed.
+Print Assumptions C18_equiv_without_H5_refuted.
+Theorem C18_equiv_without_H6_refuted : disagrees w_payload_mapping.         (* mapping outside timestamps dropped *)
+Proof. exact H6_payload_mapping_refuted. Qed.
+Print Assumptions C18_equiv_without_H6_refuted.
